@@ -924,6 +924,22 @@ func (fc *FnCtx) transCall(env *Env, e *CCall) (Val, types.Type) {
 				return tb.App(tb.DeclFun("strconv_AtoiOK", []string{"Str"}, "Bool"), "Bool", s), boolT
 			}
 			return tb.App(tb.DeclFun("strconv_AtoiVal", []string{"Str"}, "Int"), "Int", s), intT
+		case "splitCount", "splitPart":
+			// the uninterpreted functions behind the strings.Split model for a one-byte literal separator
+			x, _ := argT(0)
+			sl, ok := e.Args[1].(*CStr)
+			if !ok {
+				fc.tfail("%s needs a string literal separator", id.Name)
+			}
+			nf, atf, ok := fc.splitFns(fc.strLit(sl.Val))
+			if !ok {
+				fc.tfail("%s: separator must be one byte", id.Name)
+			}
+			if id.Name == "splitCount" {
+				return tb.App(nf, "Int", x), intT
+			}
+			i, _ := argT(2)
+			return tb.App(atf, "Str", x, i), types.Typ[types.String]
 		case "called":
 			// called("NAME"): a call to NAME has been executed earlier on this path of the function
 			s, ok := e.Args[0].(*CStr)
